@@ -30,6 +30,9 @@ EXTRA = {
     "C09-8": ["C20"], "C10-7": ["C08"], "C10-8": ["C08"],
     "C02-7": ["C03"], "C11-8": [], "C12-8": [], "C13-7": ["C14", "C15"], "C13-8": ["C15"], "C14-7": ["C13", "C15"], "C14-8": ["C13"],
     "C15-7": ["C13"], "C15-8": ["C13"], "C17-7": ["C19"], "C17-8": ["C18"], "C19-8": ["C17", "C20"], "C20-7": ["C18"],
+    "C01-10": ["C08"], "C04-9": ["C05"], "C05-9": ["C08"], "C06-9": ["C10"], "C06-10": ["C04"], "C08-10": ["C10"], "C09-10": [],
+    "C10-9": ["C06", "C08"], "C12-9": [], "C13-9": ["C15"], "C13-10": ["C15"], "C14-9": ["C13", "C15"], "C14-10": ["C13", "C15"],
+    "C15-9": ["C13", "C14"], "C17-9": ["C20"], "C17-10": ["C19"], "C18-9": ["C20"], "C19-10": ["C20"], "C20-9": ["C11"], "C20-10": ["C09"],
     "C13-3": ["C14"], "C13-4": ["C15"], "C15-4": ["C13"], "C14-3": ["C13"], "C19-4": ["C20"], "C20-3": ["C19"],
 }
 
